@@ -1,2 +1,18 @@
 import SsqlVerif.Props.C07
+#print axioms C07.select_arith_on_aggs
+#print axioms C07.select_item_value
+#print axioms C07.select_arith_structure
+#print axioms C07.having_exact_row
+#print axioms C07.having_exact
+#print axioms C07.no_hidden_columns
+#print axioms C07.sort_perm
+#print axioms C07.less_strict_weak
+#print axioms C07.sort_sorted
 #print axioms C07.limit_prefix
+#print axioms C07.distinct_first_occurrence
+#print axioms C07.groupBatch_keys_nodup
+#print axioms C07.pipeline_eq_spec
+#print axioms C07.pipeline_eq_spec_batch
+#print axioms C07.oracle_accepts_every_order
+#print axioms C07.intNum_ord
+#print axioms C07.facts_hidden_names
